@@ -69,7 +69,7 @@ def impl_main(payload):
         def __call__(self, population):
             for ind in population:
                 if not ind.fit_set:
-                    ind.fitness = float(sum(ind.values))
+                    ind.fitness = float(ind.values[0])      # the second gene only names the individual: ties between different individuals
                     self.eval_count += 1
 
     class StubEA:
@@ -92,6 +92,7 @@ def impl_main(payload):
     out_cases, exp, viol = [], [], []
     stats = dict(runs=0, calls=0, nonblocking_calls=0, events=0, deadlocks=0, f13=0, max_msgs_pending=0)
     f13_examples = []
+    mig = dict(checks=0, exchanging_ranks=0, viol=[])
     for case in payload["cases"]:
         n, sync = case["n"], case["sync"]
         rs = random.Random(case["seed"])
@@ -103,10 +104,12 @@ def impl_main(payload):
             rs_local = random.Random(case["seed"] * 31 + rank)
 
             def gen():
-                return MultipleValueChromosome([rs_local.randint(1, 50)])
+                return MultipleValueChromosome([rs_local.randint(1, 6 if case["seed"] % 2 else 50), rank * 1000 + rs_local.randint(0, 999)])
 
             isl = YieldIsland(StubEA(), gen, population_size=4, hall_of_fame=None)
             isl.slice_cost = case["cost"]
+            for k_, ind_ in enumerate(isl.population):          # name tags survive the pickling of a migration (property C11)
+                ind_.tag = rank * 1000 + k_
             res = []
             arch = None
             for ci, call in enumerate(case["calls"]):
@@ -115,6 +118,7 @@ def impl_main(payload):
                         arch = ParallelArchipelago(isl, hall_of_fame=HallOfFame(3), non_blocking=call["non_blocking"], sync_frequency=sync)
                     else:
                         arch._non_blocking = call["non_blocking"]
+                tags0 = sorted(getattr(i_, "tag", -1) for i_ in isl.population)
                 before = (isl.generational_age, arch.generational_age, arch._sync_frequency)
                 sim.events.append((rank, "call_start", (ci, before)))
                 arch.evolve(call["steps"])
@@ -122,7 +126,8 @@ def impl_main(payload):
                 best = arch.get_best_fitness()
                 evals = arch.get_fitness_evaluation_count()
                 hof = [tuple(m.values) for m in arch.hall_of_fame] if arch.hall_of_fame is not None else None
-                res.append(dict(best=best, evals=evals, arch_age=arch.generational_age, island_age=isl.generational_age, hof=hof,
+                res.append(dict(tags0=tags0, tags1=sorted(getattr(i_, "tag", -1) for i_ in isl.population),
+                                best=best, evals=evals, arch_age=arch.generational_age, island_age=isl.generational_age, hof=hof,
                                 island_best=isl.get_best_fitness(), stale=[(s, t) for (s, t, _) in sim.mail[rank] if t in (2, 3)]))
             return res
 
@@ -146,6 +151,20 @@ def impl_main(payload):
             arch0 = starts[0][1]
             ages1 = [ends[r][1] for r in range(n)]
             res = [sim.results[r][ci] for r in range(n)]
+            # migration (property C11, parallel case): the evolutionary algorithm of this harness is the identity, so the
+            # populations change through migration only - nobody may be lost or duplicated, island sizes stay
+            mig["checks"] += 1
+            all0 = sorted(t for r in range(n) for t in res[r]["tags0"])
+            all1 = sorted(t for r in range(n) for t in res[r]["tags1"])
+            if all0 != all1:
+                mig["viol"].append("%s call %d: the multiset of individuals over the ranks changed: %d before, %d after, lost %r, new or duplicated %r"
+                                   % (tag, ci, len(all0), len(all1), sorted(set(all0) - set(all1))[:6],
+                                      [t for t in set(all1) if all1.count(t) > all0.count(t)][:6]))
+            elif [len(res[r]["tags1"]) for r in range(n)] != [len(res[r]["tags0"]) for r in range(n)]:
+                mig["viol"].append("%s call %d: island sizes changed from %r to %r" % (tag, ci, [len(res[r]["tags0"]) for r in range(n)],
+                                                                                       [len(res[r]["tags1"]) for r in range(n)]))
+            moved = sum(1 for r in range(n) if res[r]["tags0"] != res[r]["tags1"])
+            mig["exchanging_ranks"] += moved
             # oracle
             for r in range(n):
                 if res[r]["stale"]:
@@ -214,7 +233,7 @@ def impl_main(payload):
                 continue                  # keep the Coq literal small
             out_cases.append(dict(n=n, sync=starts[0][2] if call["steps"] >= starts[0][2] else 1, arch_age=arch0, steps=call["steps"], ages=ages0, sched=sched))
             exp.append(codes + [-7777] + ages1 + [-7776, 0, 0, 1])
-    return dict(cases=out_cases, exp=exp, viol=viol, stats=stats, f13_examples=f13_examples)
+    return dict(cases=out_cases, exp=exp, viol=viol, stats=stats, f13_examples=f13_examples, migration=mig)
 
 
 def check(rep, proof):
